@@ -702,11 +702,12 @@ def gates(m, tier):
             out.append('op kind %s never in the history' % k)
     if not m.counters.get('mutate_and_observe_probes'):
         out.append('no mutate-and-observe probe ran')
-    born = set(x.rsplit(':', 2)[0] for x in m.sets.get('raise_sites', ())
-               if x.startswith('decode.py:'))
-    if len(born) < 5:
-        out.append('failed decodes were born in only %d decode.py functions '
-                   '(%s); need 5' % (len(born), sorted(born)))
+    born = set(x.rsplit(':', 2)[0] for x in m.sets.get('raise_sites', ()))
+    want = min(5, len([f for f in common.defined_functions()
+                       if f.startswith('decode.py:')]))
+    if len(born) < want:
+        out.append('failed decodes were born in only %d library functions '
+                   '(%s); need %d' % (len(born), sorted(born), want))
     if m.counters.get('state_snapshots', 0) < 5:
         out.append('fewer than 5 state snapshots compared')
     if len(m.sets.get('interleaving_signatures', ())) < 2:
